@@ -78,6 +78,11 @@ def run_check(pid: str, tier: str, seed: int) -> int:
     # 2. proofs
     targets = list(getattr(mod, "COQ_TARGETS", []))
     theorems = list(getattr(mod, "THEOREMS", []))
+    if not theorems:      # default: every `Theorem` of the property file
+        import re as _re
+        pf = lib.COQ / "props" / f"{pid}.v"
+        if pf.exists():
+            theorems = [f"Stab.props.{pid}.{m}" for m in _re.findall(r"^Theorem\s+(\w+)", pf.read_text(), _re.M)]
     build = lib.coq_build(targets) if targets else lib.BuildResult(ok=True)
     ctx.build = build
     if not build.ok:
